@@ -196,7 +196,7 @@ class LTI(System):
         '''
         return super().forward(state, input)
 
-    def state_transition(self, state, input):
+    def state_transition(self, state, input, t=None):
         r'''
         Perform one step of LTI state transition.
 
@@ -213,7 +213,7 @@ class LTI(System):
         z = bmv(self.A, state.clone()) + bmv(self.B, input)
         return z if self.c1 is None else z + self.c1
 
-    def observation(self, state, input):
+    def observation(self, state, input, t=None):
         r'''
         Return the observation of LTI system.
 
